@@ -1,5 +1,6 @@
 (* C19 — well-checksummed but inconsistent archives are rejected without crashing.
    An inconsistent archive is again just a file-system state: the theorems quantify over all of them. *)
+From Gopar Require Import Proofs.Par2Ids Proofs.LoadSizes.
 From Gopar Require Import Model.Base Model.CRC Model.GoPath Model.FS Model.Par2 Model.Par1 Proofs.Par2Facts Proofs.Par2Verify Proofs.Par2Faults Proofs.Par1Facts Proofs.Par1Safety.
 Open Scope N_scope.
 
@@ -34,3 +35,38 @@ Print Assumptions C19_par1_verify_no_panic.
 Theorem C19_par1_repair_no_panic : forall md5 ix dbl st p, fst (fst (par1_repair md5 ix dbl st)) <> Panic p.
 Proof. exact par1_repair_no_panic. Qed.
 Print Assumptions C19_par1_repair_no_panic.
+
+(* NO ALLOCATION OUT OF PROPORTION, as far as the model can say it: the SIZES of the tables the loaders build are
+   bounded by the bytes actually read, for EVERY state (hostile archives included).
+   - a main packet lists every file id once (after the fix e41da29; before it one id listed n times with k checksum
+     pairs gave n*k shard slots for 16n+20k bytes of index: 1.5 GB for a 229 KB set);
+   - the shard table of a loaded PAR2 set has at most (index file length)/20 slots;
+   - the recovery table has at most 65536 slots, each block one slice long (the coder built from it is sized by the
+     HIGHEST exponent: recorded known finding);
+   - a PAR1 volume's entry list is bounded by its length / 56, and at most 99 parity slots are loaded. *)
+Theorem C19_file_ids_distinct : forall md5 ix st d st1, new_decoder md5 ix st = (Ok d, st1) ->
+  NoDup (map di_id (d_rec d)) /\ NoDup (map di_id (d_nonrec d)).
+Proof. exact decoder_ids_distinct. Qed.
+Print Assumptions C19_file_ids_distinct.
+
+Theorem C19_shard_table_bounded : forall md5 ix st ds st', load_all md5 ix st = (Ok ds, st') ->
+  exists b st0, io_read ix st = (Ok b, st0) /\
+    (20 * length (flat_map fi_shards (ds_fis ds)) <= length b)%nat.
+Proof. exact shard_table_bounded_uncond. Qed.
+Print Assumptions C19_shard_table_bounded.
+
+Theorem C19_parity_table_bounded : forall md5 ix st ds st', load_all md5 ix st = (Ok ds, st') ->
+  (N.of_nat (length (ds_parity ds)) <= 65536)%N /\
+  forall b, In (Some b) (ds_parity ds) -> N.of_nat (length b) = d_slice (ds_dec ds).
+Proof. exact parity_table_bounded. Qed.
+Print Assumptions C19_parity_table_bounded.
+
+Theorem C19_par1_sizes : forall md5 ix st s st', p1_load md5 ix st = (Ok s, st') ->
+  (length (s_saved s) <= length (v_entries (s_vol s)))%nat /\
+  length (s_data s) = length (s_saved s) /\
+  (length (s_parity s) <= 99)%nat /\
+  (forall x, In (Some x) (s_parity s) -> length x = s_size s) /\
+  exists b st1, io_read ix st = (Ok b, st1) /\ read_volume md5 b = Ok (s_vol s) /\
+                (58 * length (v_entries (s_vol s)) + 96 <= length b)%nat.
+Proof. exact p1_load_sizes. Qed.
+Print Assumptions C19_par1_sizes.
